@@ -2,7 +2,9 @@ import CalicoVerif.Util.Proto
 import CalicoVerif.Model.C28
 import CalicoVerif.Gen.C28
 /-! Driver for C28 (stateless except for the `dnew`/`dset` history ops:
-  `dnew <felix> <bgp> <classes e.g. iivn>` starts Felix with these pools; `dset <pool> <i|v|n>` changes a pool's class). Settings: `-` absent, `nil` no BGPConfiguration, `e` empty string, else hex.
+  `dnew <felix> <bgp|nil> <classes e.g. iivn>` starts Felix with these pools and confd with that BGPConfiguration;
+  `dset <pool> <i|v|n>` changes a pool's class; `bset <setting>` / `bdel` = syncer events for BGPConfiguration default;
+  `fset <setting>` = Felix restarts with a new setting; `dsub <0|1>` = node's network_v4 key absent/present). Settings: `-` absent, `nil` no BGPConfiguration, `e` empty string, else hex.
   `felix <setting>`                         → `ipip noencap <stored value>`
   `fenv <setting> <ipip 0|1> <vxlan 0|1> <noencap 0|1>` → `progIPIP progNoEncap noEncapNeeded ipipEnabled vxlanEnabled`
   `bgp <setting>`                           → `ipip noencap`
@@ -53,6 +55,8 @@ structure DState where
   fv : Option Str := none
   bv : Option Str := none
   dyn : Option Dyn := none
+  bres : Option (Option Str) := none   -- confd's cached BGPConfiguration
+  sub : Bool := true                   -- node's network_v4 known
 
 def classOf : Char → Option PoolClass
   | 'i' => some .ipip
@@ -71,21 +75,46 @@ def classChar : PoolClass → String
   | .noEncap => "n"
 
 /-- `flags=<ipipEnabled><vxlanEnabled><noEncapNeeded> p0=<class><felix remote block><felix local block><bird> …` -/
-def showDyn (bv : Option Str) (d : Dyn) : String :=
+def showDyn (bres : Option (Option Str)) (sub : Bool) (d : Dyn) : String :=
+  let bv := confdSetting bres
   let fl := encapFlags d.env
   let pools := d.classes.zipIdx.map (fun x =>
-    let bird := birdPrograms (bgpPolicy Gen.bgpTable bv) x.1.modes.1 x.1.modes.2
+    let bird := birdKernelV4 sub (bgpPolicy Gen.bgpTable bv) x.1.modes.1 x.1.modes.2
     s!"p{x.2}={classChar x.1}{showBool (d.programs (2 * x.2))}{showBool (d.programs (2 * x.2 + 1))}{showBool bird}")
   s!"flags={showBool fl.1}{showBool fl.2.1}{showBool fl.2.2} " ++ joinWith " " pools
 
 def dynStep (st : DState) (line : String) : Option (DState × String) :=
   match words line with
-  | ["dnew", f, b, cs] =>
-    match setting false f, setting true b, classesOf cs with
+  | ["dnew", f, b0, cs] =>
+    match setting false f, setting true b0, classesOf cs with
     | some f, some b, some cs =>
       let d := Dyn.start Gen.felixTable Gen.guards (felixValue Gen.felixTable f) cs
-      some ({ fv := f, bv := b, dyn := some d }, showDyn b d)
+      -- `nil` = no BGPConfiguration resource; anything else = a KVNew event carrying that setting
+      let bres := if b0 == "nil" then none else confdRun none [.set b]
+      some ({ fv := f, dyn := some d, bres := bres, sub := true }, showDyn bres true d)
     | _, _, _ => some (st, "bad-op")
+  | ["bset", b] =>
+    match st.dyn, setting false b with
+    | some d, some b =>
+      let bres := confdRun st.bres [.set b]
+      some ({ st with bres := bres }, showDyn bres st.sub d)
+    | _, _ => some (st, "bad-op")
+  | ["bdel"] =>
+    match st.dyn with
+    | some d =>
+      let bres := confdRun st.bres [.del]
+      some ({ st with bres := bres }, showDyn bres st.sub d)
+    | none => some (st, "bad-op")
+  | ["fset", f] =>
+    match st.dyn, setting false f with
+    | some d, some f =>
+      let d' := Dyn.start Gen.felixTable Gen.guards (felixValue Gen.felixTable f) d.classes
+      some ({ st with fv := f, dyn := some d' }, "restart " ++ showDyn st.bres st.sub d')
+    | _, _ => some (st, "bad-op")
+  | ["dsub", x] =>
+    match st.dyn, bit x with
+    | some d, some x => some ({ st with sub := x }, showDyn st.bres x d)
+    | _, _ => some (st, "bad-op")
   | ["dset", p, c] =>
     match st.dyn, p.toNat?, c.toList with
     | some d, some p, [ch] =>
@@ -93,7 +122,7 @@ def dynStep (st : DState) (line : String) : Option (DState × String) :=
       | some c =>
         if p < d.classes.length then
           let r := Dyn.setClass Gen.felixTable Gen.guards (felixValue Gen.felixTable st.fv) d p c
-          some ({ st with dyn := some r.1 }, (if r.2 then "restart " else "") ++ showDyn st.bv r.1)
+          some ({ st with dyn := some r.1 }, (if r.2 then "restart " else "") ++ showDyn st.bres st.sub r.1)
         else some (st, "bad-op")
       | none => some (st, "bad-op")
     | _, _, _ => some (st, "bad-op")
